@@ -1,5 +1,6 @@
 """C20 - stopping controllers stop exactly on their documented conditions, within budget."""
 import copy
+import functools
 import itertools
 import math
 import numpy as np
@@ -13,51 +14,99 @@ from pypose.utils.stepper import ReduceToBason
 
 from ..core import Sub, CaseAbort, _frame_of, eval_case
 from ..ref import controllers as RC
-from ..ref.controllers import Automaton, relation, step_failed, all_below, failed_under, INF
+from ..ref.controllers import Automaton, relation, classify, step_failed, all_below, failed_under, INF
 
 PROPERTY = "C20"
 RULE = ("Reference automaton (vp/ref/controllers.py: steps, patience_count, continual, last loss) written from the "
         "property statement / docstrings: stop at the first step where steps>=budget, or `patience` consecutive steps "
-        "failed to decrease by `decreasing`, or (StopOnPlateau) reject_count>0, or (ReduceToBason) all losses<tol. "
-        "Losses are positive float32-representable numbers on which the absolute (last-loss), relative-to-last and "
-        "relative-to-new readings of 'decrease by the configured amount' agree with a factor 2 to spare and no loss is "
-        "within 1e-4 of tol (the statement does not choose a reading).  StopOnPlateau is driven through a stub "
-        "_Optimizer exposing only last/loss/reject_count.  enum: EVERY history over {big decrease x0.7, small "
-        "decrease x(1-2e-6), equal, increase x1.3} x {rejected, not} (StopOnPlateau, 8 symbols) resp. + below-tol "
-        "(ReduceToBason, 5 symbols), threshold 1e-4, start 1.0, of length <= steps+2 for steps 1..4 x patience 1..3 "
-        "(quick) / <= min(12, steps+3) for steps 1..6 x patience 1..4 (thorough); one case = one (controller, steps, "
-        "patience, prefix) subtree walked depth-first with shared prefixes (state_dict/load_state_dict resp. deepcopy at "
-        "branch points).  After EVERY step up to and including the stopping step continual(), .steps, "
-        ".patience_count equal the automaton's; after the stop continual() must stay False whatever follows (counters "
-        "are not asserted after the stop: undocumented); ReduceToBason: at every node a deep copy is reset() and every "
-        "attribute must equal a freshly constructed controller's, and at stop nodes the reset copy is driven again "
-        "against a fresh automaton.  sequences: Hypothesis histories of <= 60 events (python float / 0-dim f32,f64 "
-        "tensors / batched tensors of 2..4 losses with per-element symbols, reset() at arbitrary points, reuse after "
-        "reset, budgets 1..70, patience 1..6, thresholds 1e-6..1e-3, tol 1e-5..10).  drivers: "
+        "failed to decrease by `decreasing`, or (StopOnPlateau) reject_count>0, or (ReduceToBason) all losses<tol.  "
+        "ASSERTED: continual() after every step up to and including the stopping step, continual() False after the stop "
+        "whatever follows, and for ReduceToBason.reset(): continual() True, the state the property names (steps, "
+        "patience_count, last) equal BY VALUE to a fresh controller's, and the reset controller driven again behaves as a "
+        "fresh one.  NOT asserted (labels '*:counter_differs:*', 'R:reset:other_attribute_differs:*'): the values of the "
+        "undocumented counters .steps / .patience_count while running, dtype / shape / further attributes after reset.  "
+        "Which decrease counts: the docstrings say 'relative', StopOnPlateau's docstring example only works with the "
+        "absolute reading, neither says whether a decrease of exactly `decreasing` counts.  Losses are float32-"
+        "representable, >= 0, and every asserted step has one verdict under all three readings (last-loss, /last, /new) "
+        "with a factor 2 to spare (mode 'agree'), or with a factor 1.004 to spare for the near-threshold steps of 0.96.."
+        "0.99 resp. 1.01..1.04 x threshold taken at losses ~ 1 (mode 'near'; float32 rounding of the controllers is 2e-7, "
+        "nothing is generated AT the threshold); for ReduceToBason only - documented as relative throughout - also "
+        "loss scales 2^-10..2^10 on which the two relative readings agree with a factor 2 and the absolute one says the "
+        "opposite (mode 'rel').  No loss is within 1e-4 of tol.  StopOnPlateau is driven through a stub _Optimizer "
+        "exposing only last/loss/reject_count (label S:reading_probe:* records which reading it follows; not asserted).  "
+        "enum (complete over the following boxes, which are NOT the whole stated domain - 8^12 histories per configuration "
+        "are out of reach - hence exhaustive=false): EVERY history over {decrease>=thr, decrease<thr, equal, increase} x "
+        "{rejected, not} (StopOnPlateau, 8 symbols) resp. + below-tol (ReduceToBason, 5 symbols) "
+        "(a) ladder 'coarse' (x0.7, x(1-2e-6), =, x1.3; threshold 1e-4, start 1.0): length <= steps+2 for steps 1..4 x "
+        "patience 1..3 (quick) / <= min(12, steps+3), i.e. <= 9, for steps 1..6 x patience 1..4 (thorough); "
+        "(b) ladder 'fine' (-1.01 thr, -0.99 thr, =, +1.01 thr around 1.0) and, ReduceToBason, ladders 'rel_hi' (start "
+        "1024, thr 1e-3: x(1-4e-3), x(1-4e-4) where the absolute reading says decreased) and 'rel_lo' (start 2^-10, "
+        "thr 1e-3: x0.7 where the absolute reading says failed): length <= steps+2 for steps 1..3 x patience 1..3 (quick) "
+        "/ steps 1..6 x patience 1..4 (thorough); (c) every history of length <= 12 over every 2-symbol sub-alphabet, "
+        "coarse ladder: StopOnPlateau (steps,patience) = (6,4),(5,2) (quick) / both controllers, all steps 1..6 x "
+        "patience 1..4 (thorough).  One case = one (controller, ladder, steps, patience, prefix) subtree walked depth-first with shared "
+        "prefixes (state_dict/load_state_dict resp. deepcopy at branch points); ReduceToBason: at every node a deep copy "
+        "is reset() and checked, at stop nodes the reset copy is driven again (first loss 2^20, then equal losses) against "
+        "a fresh automaton.  histories (Hypothesis): single random histories over the same alphabet and ladders out to the "
+        "stated limits - length 1..12 (two thirds 10..12), steps 1..6, patience 1..4 - same oracle.  sequences: "
+        "Hypothesis histories of <= 60 events (python float / 0-dim f32,f64 tensors / batched tensors of 2..4 losses "
+        "with per-element symbols, reset() at arbitrary points, reuse after reset, budgets 1..70, patience 1..6, "
+        "thresholds 1e-6..1e-3, tol 1e-9..10, modes agree / near / rel as above, below-tol losses for every tol, losses "
+        "of exactly 0; labels 'reached:*' count the cases that really contain an asserted step of that kind).  drivers: "
         "StopOnPlateau.optimize on a scripted stub (exact stop step) and on real GN/LM optimizers (tiny least-squares "
         "model), MPC and ICP called three times on the same object (stepper reused) with a counting wrapper around "
-        "stepper.step: #controller steps <= steps in every call, and the stop step must be a fresh automaton's under at "
-        "least one of the three readings (batched costs/errors: all-elements rule).  "
+        "stepper.step: #controller steps <= steps in every call, >= 1 in the first call (fresh controller), and the stop "
+        "step must be a fresh automaton's under at least one of the three readings (batched costs/errors: all-elements "
+        "rule); a trace no reading can judge is labelled '...undecided(stop step not judged)', a later call without a step "
+        "'...zero_steps(stop step not judged)', an exception raised outside scheduler/stepper/mpc/icp DISCARDS the case "
+        "(counted under 'discarded').  driver_canary: 24 fixed well-conditioned MPC / ICP / GN / LM inputs on which none of "
+        "these escapes is allowed: no exception, >= 1 step in every call, stop step decided and correct.  "
         "Non-trivial: the history contains a step after the stop (this includes >= 2 causes becoming true at different "
-        "steps) or a reset / a repeated driver call; distinct = (controller, steps, patience, abstract history).  In "
-        "enum one case covers many histories: the labels 'histories_checked(x100)', 'nontrivial_histories(x100)' count "
-        "them in units of 100 (floor per case; every history is counted by exactly one case) and only every 4th "
-        "(quick) / 2048th (thorough) non-trivial history contributes a descriptor to distinct_nontrivial.")
-ASSUMPTIONS = ["losses are positive and finite; steps >= 1, patience >= 1, decreasing > 0 (drivers: >= 0), tol > 0",
+        "steps) or a reset / a repeated driver call; distinct = (controller, ladder/mode, steps, patience, abstract "
+        "history).  In enum one case covers many histories: the labels 'histories_checked(x100)', "
+        "'nontrivial_histories(x100)' (boxes a, b; every history counted by exactly one case) and "
+        "'pair_histories_len<=12_*(x100)' (c) count them in units of 100 (floor per case) and only every 4th (quick) / "
+        "2048th (thorough) non-trivial history contributes a descriptor to distinct_nontrivial.")
+ASSUMPTIONS = ["losses are finite and >= 0 (a zero loss only where the verdict does not need 0/0); steps >= 1, patience >= 1, "
+               "decreasing > 0 (drivers: >= 0), tol > 0; negative / NaN losses are not documented as accepted and not generated",
                "first step after construction / reset() has no previous loss and cannot count as a failed step",
                "batched losses: a step counts as failed when all elements failed (ReduceToBason.step docstring)",
-               "StopOnPlateau documents no reset(); 'restores the initial state' is checked for ReduceToBason only",
-               "counters (.steps, .patience_count) after the stopping step are not part of the statement",
-               "MPC documents 'n-1 loops, 1 loop with gradient': its effective budget is read from stepper.max_steps"]
-
-THR_E, TOL_E, L0_E, BELOW_E = 1e-4, 1e-5, 1.0, float(np.float32(1e-7))
-SYM = {"S": "dseiDSEI", "R": "dseib"}
-SUBTREE = {"S": 5, "R": 5}          # levels fully enumerated inside one case
-FLOOR, CEIL = 0.05, 100.0
+               "StopOnPlateau has no reset() and documents none: 'until reset, which restores the initial state' is checked "
+               "for ReduceToBason only (its documented state_dict()/load_state_dict() round trip is exercised at every "
+               "branch point of the enumeration)",
+               "'initial state' = the state variables the property names (steps, patience_count, last; continual()), by value",
+               "the values of .steps / .patience_count between construction/reset and the stop are undocumented: labels only",
+               "ReduceToBason: 'relative loss decreasing' is taken from its docstring (relative to the previous or to the new "
+               "loss: both accepted); StopOnPlateau: absolute or relative, both accepted",
+               "a decrease of exactly `decreasing` / a loss of exactly `tol`: undocumented, never generated (nearest: 1 % / 1e-4)",
+               "MPC documents 'n-1 loops, 1 loop with gradient': its effective budget is read from stepper.max_steps",
+               "an exception raised by a driver outside scheduler.py / stepper.py / mpc.py / icp.py on a RANDOM input belongs "
+               "to another property (discarded, counted); on the fixed canary inputs it is a failure"]
 
 
 def f32(x):
     return float(np.float32(x))
+
+
+SYM = {"S": "dseiDSEI", "R": "dseib"}
+SUBTREE = {"S": 5, "R": 5}          # levels fully enumerated inside one case
+FLOOR, CEIL = 0.05, 100.0
+PROBE_L = 2.0 ** 20                 # first loss of the reuse-after-reset probe: above every loss a ladder can reach
+# Concrete realisations of the abstract alphabet.  mode = which readings of "decrease by the configured amount" the
+# expected verdict is taken from (vp/ref/controllers.classify): 'agree' all three with a factor 2, 'near' all three
+# with a factor 1.004 (steps of 0.99 / 1.01 x threshold at a loss ~ 1), 'rel' the two relative readings only (loss
+# scale far from 1, where the absolute reading gives the OPPOSITE verdict on 's' (rel_hi) resp. 'd' (rel_lo):
+# ReduceToBason only - its docstring says "relative" and nothing else).
+LADDERS = {
+    "coarse": dict(l0=1.0, thr=1e-4, tol=1e-5, below=f32(1e-7), mode="agree", ctrls="SR",
+                   d=("mul", 0.7), s=("mul", 1 - 2e-6), i=("mul", 1.3)),
+    "fine": dict(l0=1.0, thr=1e-4, tol=1e-5, below=f32(1e-7), mode="near", ctrls="SR",
+                 d=("add", -1.01e-4), s=("add", -0.99e-4), i=("add", 1.01e-4)),
+    "rel_hi": dict(l0=1024.0, thr=1e-3, tol=1e-5, below=f32(1e-7), mode="rel", ctrls="R",
+                   d=("mul", 1 - 4e-3), s=("mul", 1 - 4e-4), i=("mul", 1.3)),
+    "rel_lo": dict(l0=2.0 ** -10, thr=1e-3, tol=1e-7, below=f32(1e-9), mode="rel", ctrls="R",
+                   d=("mul", 0.7), s=("mul", 1 - 2e-6), i=("mul", 1.3)),
+}
 
 
 class _Enough(Exception):
@@ -71,13 +120,15 @@ class _Overrun(Exception):
 OWN_FILES = ("stepper.py", "scheduler.py", "mpc.py", "icp.py")
 
 
-def _driver_exc(rec, what, e):
-    """an exception inside a driver loop: a failure of this property only when it comes from the controller / loop code"""
+def _driver_exc(rec, what, e, strict=False):
+    """an exception inside a driver loop: a failure of this property when it comes from the controller / loop code (or,
+    strict: on one of the fixed canary inputs, on which the unchanged tree runs cleanly).  Anything else (a solver that
+    rejects a singular random system ...) is some other property's business: the case is DISCARDED - it is counted under
+    'discarded' with the frame, never as a passed case, and > 30 % discards is a harness error."""
     fr = _frame_of(e)
-    if fr.split(":")[0] in OWN_FILES:
+    if strict or fr.split(":")[0] in OWN_FILES:
         _sut_fail(rec, what, e)
-    rec.label("foreign_exception:" + fr)
-    raise CaseAbort()
+    rec.discard_case("driver raised outside the controller / loop code: %s@%s" % (type(e).__name__, fr))
 
 
 def _sut_fail(rec, what, e):
@@ -100,28 +151,50 @@ def _conv(x, vtype):
     return torch.tensor(x, dtype=torch.float32 if vtype == "t32" else torch.float64)
 
 
+STATE = ("steps", "patience_count", "last")     # the controller state the property names (anchors.state), + continual()
+
+
+def _same_value(x, y):
+    """equal as numbers (a python float, a 0-dim or a batched tensor of the same values are the same state)"""
+    try:
+        if torch.is_tensor(x) or torch.is_tensor(y):
+            tx, ty = torch.as_tensor(x, dtype=torch.float64), torch.as_tensor(y, dtype=torch.float64)
+            return bool((tx == ty).all())
+        return bool(x == y)
+    except Exception:
+        return False
+
+
 def _state_diff(a, b):
-    """names of attributes that differ between two vars() dicts"""
-    bad = [k for k in set(a) ^ set(b)]
+    """(named, other): names of attributes of two vars() dicts that differ.  named: the state variables of STATE,
+    compared by VALUE - asserted, 'reset restores the initial state'.  other: every further difference (other
+    attributes, tensor-ness / dtype / shape of any attribute) - not promised by anything, reported as labels only."""
+    named, other = [k for k in set(a) ^ set(b) if k in STATE], [k for k in set(a) ^ set(b) if k not in STATE]
     for k in set(a) & set(b):
         x, y = a[k], b[k]
         if torch.is_tensor(x) or torch.is_tensor(y):
-            ok = torch.is_tensor(x) and torch.is_tensor(y) and x.dtype == y.dtype and x.shape == y.shape and torch.equal(x, y)
+            same = torch.is_tensor(x) and torch.is_tensor(y) and x.dtype == y.dtype and x.shape == y.shape and torch.equal(x, y)
         else:
-            ok = bool(x == y)
-        if not ok:
-            bad.append(k)
-    return sorted(bad)
+            same = type(x) is type(y) and bool(x == y)
+        if same:
+            continue
+        if k in STATE and not _same_value(x, y):
+            named.append(k)
+        else:
+            other.append(k)
+    return sorted(named), sorted(other)
 
 
-def _ladder(cur, ch):
+@functools.lru_cache(maxsize=1 << 16)
+def _cls(last, new, thr, mode):
+    return classify(last, new, thr, mode)
+
+
+def _ladder(cur, ch, L=LADDERS["coarse"]):
     c = ch.lower()
-    if c == "d":
-        return f32(cur * 0.7)
-    if c == "s":
-        return f32(cur * (1 - 2e-6))
-    if c == "i":
-        return f32(cur * 1.3)
+    if c in "dsi":
+        op, v = L[c]
+        return f32(cur * v) if op == "mul" else f32(cur + v)
     return cur
 
 
@@ -129,31 +202,56 @@ def _ladder(cur, ch):
 class Enum(Sub):
     name = "enum"
     kind = "enum"
-    exhaustive = True
+    # complete over the boxes listed in RULE, which are NOT the whole stated domain (length 12 over 8 symbols is 7e10
+    # histories per configuration): the claim 'exhaustive' is therefore not made.
+    exhaustive = False
     budget_s = {"quick": 200.0, "thorough": 6000.0}
     nt_rate = {"quick": 4, "thorough": 2048}      # every k-th non-trivial history gets a distinctness descriptor
+    PAIRS_QUICK = {"S": ((6, 4), (5, 2)), "R": ()}       # (a ReduceToBason node costs 20 x a StopOnPlateau node)
 
     @staticmethod
     def box(tier):
+        """(ladder, ctrl, steps, patience, maxlen): every history of length <= maxlen over the full alphabet"""
+        out = []
         if tier == "quick":
-            return [(s, p, s + 2) for s in range(1, 5) for p in range(1, 4)]
-        return [(s, p, min(12, s + 3)) for s in range(1, 7) for p in range(1, 5)]
+            out += [("coarse", c, s, p, s + 2) for c in "SR" for s in range(1, 5) for p in range(1, 4)]
+            out += [(l, c, s, p, s + 2) for l in ("fine", "rel_hi", "rel_lo") for c in LADDERS[l]["ctrls"]
+                    for s in range(1, 4) for p in range(1, 4)]
+        else:
+            out += [("coarse", c, s, p, min(12, s + 3)) for c in "SR" for s in range(1, 7) for p in range(1, 5)]
+            out += [(l, c, s, p, s + 2) for l in ("fine", "rel_hi", "rel_lo") for c in LADDERS[l]["ctrls"]
+                    for s in range(1, 7) for p in range(1, 5)]
+        return out
+
+    @classmethod
+    def pair_box(cls, tier):
+        """(ctrl, steps, patience): every history of length <= 12 over every 2-symbol sub-alphabet (coarse ladder)"""
+        if tier == "quick":
+            return [(c, s, p) for c in "SR" for s, p in cls.PAIRS_QUICK[c]]
+        return [(c, s, p) for c in "SR" for s in range(1, 7) for p in range(1, 5)]
 
     def cases(self, tier):
-        for ctrl in ("S", "R"):
-            for steps, patience, maxlen in self.box(tier):
-                k = max(0, maxlen - SUBTREE[ctrl])
-                for pre in itertools.product(SYM[ctrl], repeat=k):
-                    yield {"ctrl": ctrl, "steps": steps, "patience": patience, "prefix": "".join(pre), "maxlen": maxlen,
-                           "rate": self.nt_rate[tier]}
+        for ladder, ctrl, steps, patience, maxlen in self.box(tier):
+            k = max(0, maxlen - SUBTREE[ctrl])
+            for pre in itertools.product(SYM[ctrl], repeat=k):
+                yield {"ctrl": ctrl, "steps": steps, "patience": patience, "prefix": "".join(pre), "maxlen": maxlen,
+                       "rate": self.nt_rate[tier], "ladder": ladder}
+        for ctrl, steps, patience in self.pair_box(tier):
+            for a, b in itertools.combinations(SYM[ctrl], 2):
+                yield {"ctrl": ctrl, "steps": steps, "patience": patience, "prefix": "", "maxlen": 12,
+                       "rate": self.nt_rate[tier], "ladder": "coarse", "alpha": a + b}
 
     # ---------------------------------------------------------------------------------
     def oracle(self, case, rec):
         ctrl, steps, patience, prefix, maxlen = (case[k] for k in ("ctrl", "steps", "patience", "prefix", "maxlen"))
-        assert set(prefix) <= set(SYM[ctrl]) and len(prefix) <= maxlen
-        S = {"n": 0, "nt": 0, "multi": 0, "nfail": 0, "fails": {}, "causes": set(), "nts": []}
+        lname = case.get("ladder", "coarse")
+        L, alpha = LADDERS[lname], case.get("alpha") or SYM[ctrl]
+        assert set(prefix) <= set(SYM[ctrl]) and len(prefix) <= maxlen and set(alpha) <= set(SYM[ctrl]) and ctrl in L["ctrls"]
+        if not (1 <= steps and 1 <= patience and 1 <= maxlen):
+            rec.discard_case("configuration outside the stated domain")
+        S = {"n": 0, "nt": 0, "multi": 0, "nfail": 0, "fails": {}, "causes": set(), "nts": [], "soft": set()}
         rate = int(case.get("rate", 1))
-        tag = "%s|%d|%d|" % (ctrl, steps, patience)
+        tag = "%s|%s|%d|%d|" % (ctrl, lname, steps, patience) if lname != "coarse" else "%s|%d|%d|" % (ctrl, steps, patience)
 
         def bad(bucket, hist, msg):
             cur = S["fails"].get(bucket)
@@ -177,11 +275,12 @@ class Enum(Sub):
                     else:
                         bad("%s:stops_early" % ctrl, hist, "continual() is %r at step %d where no documented condition "
                             "holds (steps %d/%d, failed run %d/%d)" % (got, aut.steps, aut.steps, steps, aut.patience_count, patience))
+                # the counters are not documented attributes and the statement speaks about continual() only: a
+                # different bookkeeping that yields the same decisions is not a violation (label, not a failure)
                 if gsteps != aut.steps:
-                    bad("%s:steps_counter" % ctrl, hist, ".steps = %r, %d steps were made" % (gsteps, aut.steps))
+                    S["soft"].add("%s:counter_differs:steps" % ctrl)
                 if gpc != aut.patience_count:
-                    bad("%s:patience_counter" % ctrl, hist, ".patience_count = %r, the current run of failed steps is %d"
-                        % (gpc, aut.patience_count))
+                    S["soft"].add("%s:counter_differs:patience_count" % ctrl)
                 if not aut.continual:
                     S["causes"].add("+".join(aut.stop_causes))
             else:
@@ -197,45 +296,63 @@ class Enum(Sub):
 
         try:
             if ctrl == "S":
-                self._walk_S(steps, patience, prefix, maxlen, rec, compare, bad)
+                self._walk_S(steps, patience, prefix, maxlen, rec, compare, bad, L, alpha, S)
             else:
-                self._walk_R(steps, patience, prefix, maxlen, rec, compare, bad)
+                self._walk_R(steps, patience, prefix, maxlen, rec, compare, bad, L, alpha, S)
         except _Enough:
             pass
         for bucket, (hist, msg) in sorted(S["fails"].items()):
-            rec.fail(bucket, "steps=%d patience=%d history %r: %s" % (steps, patience, hist, msg))
+            rec.fail(bucket, "steps=%d patience=%d ladder=%s history %r: %s" % (steps, patience, lname, hist, msg))
         for d in S["nts"]:
             rec.nt(d)
-        rec.label("%s:s%d:p%d:len<=%d" % (ctrl, steps, patience, maxlen))
+        self._labels(case, rec, S, lname)
+
+    def _labels(self, case, rec, S, lname):
+        ctrl, steps, patience, maxlen = case["ctrl"], case["steps"], case["patience"], case["maxlen"]
         for c in S["causes"]:
             rec.label("%s:first_stop:%s" % (ctrl, c))
-        rec.labels.extend(["histories_checked(x100)"] * (S["n"] // 100))
-        rec.labels.extend(["nontrivial_histories(x100)"] * (S["nt"] // 100))
-        rec.labels.extend(["histories_2causes_at_different_steps(x100)"] * (S["multi"] // 100))
+        rec.label(*sorted(S["soft"]))
+        if case.get("alpha"):
+            rec.label("%s:pairs:s%d:p%d:len<=12" % (ctrl, steps, patience))
+            rec.labels.extend(["pair_histories_len<=12_checked(x100)"] * (S["n"] // 100))
+            rec.labels.extend(["pair_histories_len<=12_nontrivial(x100)"] * (S["nt"] // 100))
+        else:
+            rec.label("%s:%s:s%d:p%d:len<=%d" % (ctrl, lname, steps, patience, maxlen))
+            rec.labels.extend(["histories_checked(x100)"] * (S["n"] // 100))
+            rec.labels.extend(["nontrivial_histories(x100)"] * (S["nt"] // 100))
+            rec.labels.extend(["histories_2causes_at_different_steps(x100)"] * (S["multi"] // 100))
+            rec.labels.extend(["histories_checked:%s(x100)" % lname] * (S["n"] // 100))
         rec.notes["histories_per_case"] = S["n"]
         rec.notes["nontrivial_histories_per_case"] = S["nt"]
 
     # ---------------------------------------------------------------------------------
-    def _walk_S(self, steps, patience, prefix, maxlen, rec, compare, bad):
+    def _walk_S(self, steps, patience, prefix, maxlen, rec, compare, bad, L, alpha, S):
+        thr, mode = L["thr"], L["mode"]
         stub = StubOpt(True)
         try:
-            sched = StopOnPlateau(stub, steps=steps, patience=patience, decreasing=THR_E)
-            ok0 = bool(sched.continual()) and sched.steps == 0 and sched.patience_count == 0
+            sched = StopOnPlateau(stub, steps=steps, patience=patience, decreasing=thr)
+            ok0 = bool(sched.continual())
+            cnt0 = sched.steps == 0 and sched.patience_count == 0
         except Exception as e:
             _sut_fail(rec, "StopOnPlateau()", e)
         if not ok0:
-            bad("S:initial", "", "fresh scheduler: continual()/steps/patience_count are not True/0/0")
+            bad("S:initial", "", "fresh scheduler: continual() is not True")
+        if not cnt0:
+            S["soft"].add("S:counter_differs:initial")
+        # StopOnPlateau has no reset() and documents none ("until reset" is vacuous for it); if one appears it is not
+        # asserted here (nothing documents what it must do) - the label makes that visible in the evidence
         if hasattr(sched, "reset"):
-            rec.label("S:has_reset(unchecked)")
+            S["soft"].add("S:has_reset(unchecked)")
+        S["soft"].add(self._reading_probe_S(rec))
         aut = Automaton(steps, patience)
-        syms, npre = SYM["S"], len(prefix)
+        npre = len(prefix)
 
         def visit(depth, hist, cur, sstate, astate):
-            for ch in (prefix[depth] if depth < npre else syms):
+            for ch in (prefix[depth] if depth < npre else alpha):
                 sched.load_state_dict(sstate)
                 aut.set(astate)
-                new, rej = _ladder(cur, ch), ch.isupper()
-                rel = relation(cur, new, THR_E)
+                new, rej = _ladder(cur, ch, L), ch.isupper()
+                rel = _cls(cur, new, thr, mode)
                 assert rel is not None, (cur, new)
                 stub.last, stub.loss, stub.reject_count = cur, new, (1 if rej else 0)
                 try:
@@ -245,25 +362,42 @@ class Enum(Sub):
                     _sut_fail(rec, "StopOnPlateau.step", e)
                 aut.step(rel == "fail", rej)
                 h = hist + ch
-                compare(obs, aut, astate[2], h, depth >= npre - 1 or set(prefix[depth + 1:]) <= {syms[0]})
+                compare(obs, aut, astate[2], h, depth >= npre - 1 or set(prefix[depth + 1:]) <= {SYM["S"][0]})
                 if depth + 1 < maxlen:
                     visit(depth + 1, h, new, sched.state_dict(), aut.get())
 
-        visit(0, "", L0_E, sched.state_dict(), aut.get())
+        visit(0, "", L["l0"], sched.state_dict(), aut.get())
+
+    @staticmethod
+    def _reading_probe_S(rec):
+        """Which reading of 'decrease' does StopOnPlateau follow?  NOT asserted (text: relative; docstring example:
+        absolute) - one step 1000 -> 999.5 at decreasing=1e-3, patience=1 (absolute: decreased, relative: failed)."""
+        stub = StubOpt(False)
+        try:
+            sc = StopOnPlateau(stub, steps=3, patience=1, decreasing=1e-3)
+            stub.last, stub.loss = 1000.0, 999.5
+            sc.step(999.5)
+            return "S:reading_probe:" + ("absolute" if sc.continual() else "relative")
+        except Exception as e:
+            _sut_fail(rec, "StopOnPlateau.step", e)
 
     # ---------------------------------------------------------------------------------
-    def _walk_R(self, steps, patience, prefix, maxlen, rec, compare, bad):
-        kw = dict(steps=steps, patience=patience, decreasing=THR_E, tol=TOL_E)
+    def _walk_R(self, steps, patience, prefix, maxlen, rec, compare, bad, L, alpha, S):
+        thr, tol, below_v, mode = L["thr"], L["tol"], L["below"], L["mode"]
+        kw = dict(steps=steps, patience=patience, decreasing=thr, tol=tol)
         try:
             root = ReduceToBason(**kw)
             fresh = dict(vars(ReduceToBason(**kw)))
-            ok0 = bool(root.continual()) and root.steps == 0 and root.patience_count == 0
+            ok0 = bool(root.continual())
+            cnt0 = root.steps == 0 and root.patience_count == 0
         except Exception as e:
             _sut_fail(rec, "ReduceToBason()", e)
         if not ok0:
-            bad("R:initial", "", "fresh stepper: continual()/steps/patience_count are not True/0/0")
+            bad("R:initial", "", "fresh stepper: continual() is not True")
+        if not cnt0:
+            S["soft"].add("R:counter_differs:initial")
         aut = Automaton(steps, patience)
-        syms, npre = SYM["R"], len(prefix)
+        npre = len(prefix)
 
         def check_reset(c, hist, probe):
             c2 = copy.deepcopy(c)
@@ -272,36 +406,38 @@ class Enum(Sub):
                 cont = c2.continual()
             except Exception as e:
                 _sut_fail(rec, "ReduceToBason.reset", e)
-            for k in _state_diff(dict(vars(c2)), fresh):
-                bad("R:reset:attr:%s" % k, hist, "after reset() attribute %s = %r, a fresh controller has %r"
+            named, other = _state_diff(dict(vars(c2)), fresh)
+            for k in named:
+                bad("R:reset:attr:%s" % k, hist, "after reset() the state variable %s = %r, a fresh controller has %r"
                     % (k, vars(c2).get(k), fresh.get(k)))
+            for k in other:
+                S["soft"].add("R:reset:other_attribute_differs:%s" % k)
             if not cont:
                 bad("R:reset:continual", hist, "continual() is %r right after reset()" % (cont,))
-            if probe:       # reuse after reset: one first step, then `patience` equal losses
+            if probe:       # reuse after reset: a first loss above everything seen so far, then `patience` equal losses
                 pa = Automaton(steps, patience)
                 for j in range(patience + 1):
                     run = pa.continual
                     try:
-                        c2.step(1.0)
-                        o = (c2.continual(), c2.steps, c2.patience_count)
+                        c2.step(PROBE_L)
+                        o = c2.continual()
                     except Exception as e:
                         _sut_fail(rec, "ReduceToBason.step after reset", e)
                     pa.step(j > 0, False, False)
-                    if run and (bool(o[0]) is not pa.continual or o[1] != pa.steps or o[2] != pa.patience_count):
-                        bad("R:reuse_after_reset", hist + "|reset|" + "e" * (j + 1), "after reset the controller has "
-                            "continual/steps/patience_count = %r/%r/%r, a fresh one %r/%r/%r" % (
-                                o[0], o[1], o[2], pa.continual, pa.steps, pa.patience_count))
+                    if run and bool(o) is not pa.continual:
+                        bad("R:reuse_after_reset", hist + "|reset|" + "e" * (j + 1), "after reset and %d steps (first loss "
+                            "%g, then equal losses) continual() is %r, a fresh controller's %r" % (j + 1, PROBE_L, o, pa.continual))
                         break
 
         def visit(depth, hist, cur, last, node, astate):
-            for ch in (prefix[depth] if depth < npre else syms):
+            for ch in (prefix[depth] if depth < npre else alpha):
                 c = copy.deepcopy(node)
                 aut.set(astate)
                 if ch == "b":
-                    new, ncur = BELOW_E, cur
+                    new, ncur = below_v, cur
                 else:
-                    new = ncur = _ladder(cur, ch)
-                rel, below = relation(last, new, THR_E), all_below([new], TOL_E)
+                    new = ncur = _ladder(cur, ch, L)
+                rel, below = _cls(last, new, thr, mode), all_below([new], tol)
                 assert (rel is not None and below is not None) or not astate[2], (last, new)
                 try:
                     c.step(new)
@@ -310,62 +446,117 @@ class Enum(Sub):
                     _sut_fail(rec, "ReduceToBason.step", e)
                 aut.step(rel == "fail", False, bool(below))
                 h = hist + ch
-                compare(obs, aut, astate[2], h, depth >= npre - 1 or set(prefix[depth + 1:]) <= {syms[0]})
+                compare(obs, aut, astate[2], h, depth >= npre - 1 or set(prefix[depth + 1:]) <= {SYM["R"][0]})
                 check_reset(c, h, probe=(aut.stop_step == depth + 1))
                 if depth + 1 < maxlen:
                     visit(depth + 1, h, ncur, new, c, aut.get())
 
         check_reset(root, "", probe=True)
-        visit(0, "", L0_E, INF, root, aut.get())
+        visit(0, "", L["l0"], INF, root, aut.get())
 
     # ---------------------------------------------------------------------------------
     def simplify(self, case):
         pre, ml, ctrl = case["prefix"], case["maxlen"], case["ctrl"]
+        alpha = case.get("alpha") or SYM[ctrl]
         if ml > max(1, len(pre)):
             yield dict(case, maxlen=max(1, len(pre)))
             yield dict(case, maxlen=ml - 1)
         for i in range(len(pre)):
             yield dict(case, prefix=pre[:i] + pre[i + 1:], maxlen=max(1, min(ml, len(pre) - 1)) if ml == len(pre) else ml)
         if len(pre) < ml:
-            for ch in SYM[ctrl]:
+            for ch in alpha:
                 yield dict(case, prefix=pre + ch)
         for k in ("steps", "patience"):
             if case[k] > 1:
                 yield dict(case, **{k: case[k] - 1})
+        if case.get("ladder") == "fine":
+            yield dict(case, ladder="coarse")
 
     def size(self, case):
         return 1000 * (case["maxlen"] - len(case["prefix"])) + 10 * case["maxlen"] + case["steps"] + case["patience"]
 
 
+HIST_PROFILES = {"S": ("dseiDSEI", "dddddsseeiDE", "ddsseeii", "dddddddsei"),
+                 "R": ("dseib", "dddddsseeib", "ddsseeii", "dddddddseib")}
+
+
+class Histories(Enum):
+    """random single histories over the same abstract alphabet, out to the stated limits (length 12, steps 1..6,
+    patience 1..4) which the complete enumeration cannot reach; the oracle is Enum's (a case is a one-path 'subtree')"""
+    name = "histories"
+    kind = "hyp"
+    exhaustive = False
+    n = {"quick": 2000, "thorough": 240000}
+    budget_s = {"quick": 100.0, "thorough": 2400.0}
+
+    def strategy(self, tier):
+        @st.composite
+        def s(draw):
+            ctrl = draw(st.sampled_from("SR"))
+            ladder = draw(st.sampled_from(("coarse", "fine", "fine") + (("rel_hi", "rel_lo") if ctrl == "R" else ())))
+            n = draw(st.one_of(st.integers(1, 12), st.integers(10, 12), st.integers(10, 12)))
+            prof = draw(st.sampled_from(HIST_PROFILES[ctrl]))
+            hist = "".join(draw(st.sampled_from(prof)) for _ in range(n))
+            return {"ctrl": ctrl, "steps": draw(st.integers(1, 6)), "patience": draw(st.integers(1, 4)), "prefix": hist,
+                    "maxlen": n, "rate": 1, "ladder": ladder}
+        return s()
+
+    def _labels(self, case, rec, S, lname):
+        ctrl, n = case["ctrl"], case["maxlen"]
+        rec.label("%s:%s" % (ctrl, lname), "len:%s" % ("10-12" if n >= 10 else "7-9" if n >= 7 else "1-6"),
+                  "steps:%d" % case["steps"], "patience:%d" % case["patience"],
+                  "steps_after_stop:%s" % ("0" if not S["nt"] else "1-3" if S["nt"] <= 3 else ">=4"))
+        for c in S["causes"]:
+            rec.label("%s:first_stop:%s" % (ctrl, c))
+        if not S["causes"]:
+            rec.label("%s:never_stopped" % ctrl)
+        rec.label(*sorted(S["soft"]))
+
+    def size(self, case):
+        return 10 * case["maxlen"] + case["steps"] + case["patience"] + (0 if case.get("ladder", "coarse") == "coarse" else 3)
+
+
 # =====================================================================================
-PROFILES = {"descent": "ddddddddddddsei", "plateau": "dsseeiiIj", "mixed": "dddddsseeiIjb", "tolish": "ddddbbbeIj"}
+PROFILES = {"descent": "ddddddddddddsei", "plateau": "dsseeiiIj", "mixed": "dddddsseeiIjb", "tolish": "ddddbbbeIj",
+            "zeroish": "ddddseizzjb", "near": "ddddsssseeeijb"}
+MODE_PROFILES = {"agree": ("descent", "plateau", "mixed", "tolish", "zeroish"), "near": ("near",),
+                 "rel": ("descent", "plateau", "mixed", "tolish")}
 SHAPES = {"float": None, "t32": [], "t64": [], "b2": [2], "b3": [3], "b2x2": [2, 2]}
 
 
-def _realise(cur, sym, u, thr, tol):
-    """next loss of one element for an intended symbol; falls back to 'equal' when the result would be ambiguous"""
-    if sym == "d":
-        new = cur * (0.5 + 0.45 * u)
-    elif sym == "s":
-        new = cur - 0.4 * thr * min(1.0, cur) * (0.1 + 0.9 * u)
-    elif sym == "i":
-        new = cur + 0.4 * thr * min(1.0, cur) * (0.1 + 0.9 * u)
-    elif sym == "I":
-        new = cur * (1.05 + 4.0 * u)
-    elif sym == "j" or (sym == "b" and tol is None):
-        new = FLOOR * (CEIL / FLOOR) ** u
-    elif sym == "b":
-        new = tol * (0.2 + 0.7 * u)
+def _realise(cur, sym, u, thr, tol, mode="agree", scale=1.0):
+    """next loss of one element for an intended symbol; falls back to 'equal' when the result would be ambiguous.
+    d decrease / s decrease below the threshold / e equal / i small increase / I increase / j jump anywhere /
+    b below tol (no clamp: reachable for every tol) / z exactly zero.
+    mode 'agree': the three readings of 'decrease' agree with a factor 2 (losses 0.05..100);
+    mode 'near' : losses ~ 1, decreases of (1.01..1.04) x thr resp. (0.96..0.99) x thr - all readings still agree;
+    mode 'rel'  : loss scale `scale` far from 1, relative readings only (ReduceToBason)."""
+    lo, hi = FLOOR * scale, CEIL * scale
+    k = 0.1 + 0.9 * u
+    if cur == 0.0:
+        sym = "j"        # after a zero loss only an increase is decidable (0 -> 0 is 0/0 under the relative readings)
+    if sym == "z":
+        new = 0.0
+    elif sym == "b" and tol is not None:
+        new = f32(tol * (0.2 + 0.7 * u))
     else:
-        new = cur
-    new = f32(min(max(new, FLOOR), CEIL))
-    if relation(cur, new, thr) is None or (tol is not None and all_below([new], tol) is None):
-        return cur
+        if mode == "near":
+            new = {"d": cur - thr * (1.01 + 0.03 * u), "s": cur - thr * (0.99 - 0.03 * u), "i": cur + thr * (0.99 + 0.03 * u),
+                   "I": cur + thr * (1.01 + 0.03 * u), "j": 1.0 + (u - 0.5) * 2e-3, "b": 1.0 + (u - 0.5) * 2e-3}.get(sym, cur)
+        elif mode == "rel":
+            new = {"d": cur * (0.5 + 0.45 * u), "s": cur * (1 - 0.4 * thr * k), "i": cur * (1 + 0.4 * thr * k),
+                   "I": cur * (1.05 + 4.0 * u), "j": lo * (hi / lo) ** u, "b": lo * (hi / lo) ** u}.get(sym, cur)
+        else:
+            new = {"d": cur * (0.5 + 0.45 * u), "s": cur - 0.4 * thr * min(1.0, cur) * k, "i": cur + 0.4 * thr * min(1.0, cur) * k,
+                   "I": cur * (1.05 + 4.0 * u), "j": lo * (hi / lo) ** u, "b": lo * (hi / lo) ** u}.get(sym, cur)
+        new = f32(min(max(new, lo), hi))
+    if classify(cur, new, thr, mode) is None or (tol is not None and all_below([new], tol) is None):
+        return cur if cur != 0.0 else f32(hi)
     return new
 
 
-def _first(u, tol):
-    new = f32(FLOOR * (CEIL / FLOOR) ** u)
+def _first(u, tol, mode="agree", scale=1.0):
+    new = f32(1.0 + (u - 0.5) * 2e-3) if mode == "near" else f32(FLOOR * scale * (CEIL / FLOOR) ** u)
     if tol is not None and all_below([new], tol) is None:
         new = f32(new * 1.01)
     return new
@@ -384,10 +575,16 @@ class Sequences(Sub):
             ctrl = draw(st.sampled_from("RRS"))
             steps = draw(st.one_of(st.integers(1, 8), st.integers(1, 70)))
             patience = draw(st.integers(1, 6))
-            thr = draw(st.sampled_from((1e-3, 1e-3, 1e-4, 1e-6)))
+            mode = draw(st.sampled_from(("agree", "agree", "agree", "near", "near", "rel") if ctrl == "R" else
+                                        ("agree", "agree", "near")))
+            thr = draw(st.sampled_from((1e-3, 1e-4) if mode == "near" else (1e-3, 1e-3, 1e-4, 1e-6)))
+            scale = draw(st.sampled_from((2.0 ** -10, 2.0 ** -6, 2.0 ** 6, 2.0 ** 10))) if mode == "rel" else 1.0
             case = {"ctrl": ctrl, "steps": steps, "patience": patience, "thr": thr}
+            if mode != "agree":
+                case.update(mode=mode, scale=scale)
             if ctrl == "R":
-                tol = draw(st.sampled_from((1e-5, 0.5, 2.0, 10.0)))
+                tol = draw(st.sampled_from({"agree": (1e-5, 0.5, 2.0, 10.0), "near": (1e-5, 1e-5, 0.5, 2.0),
+                                            "rel": (1e-9, f32(2.0 * scale))}[mode]))
                 form = draw(st.sampled_from(("float", "float", "t32", "t64", "b2", "b3", "b2x2")))
                 case.update(tol=tol, form=form)
             else:
@@ -395,8 +592,8 @@ class Sequences(Sub):
                 form = draw(st.sampled_from(("float", "t32", "t64")))
                 case.update(form=form, reject_attr=draw(st.integers(0, 9)) > 0)
             numel = int(np.prod(SHAPES[form])) if SHAPES[form] else 1
-            prof = PROFILES[draw(st.sampled_from(sorted(PROFILES)))]
-            cur = [_first(draw(U) / 32.0, tol) for _ in range(numel)]
+            prof = PROFILES[draw(st.sampled_from(MODE_PROFILES[mode]))]
+            cur = [_first(draw(U) / 32.0, tol, mode, scale) for _ in range(numel)]
             if ctrl == "S":
                 case["l0"] = cur[0]
             n = draw(st.one_of(st.integers(1, 12), st.integers(1, 60)))
@@ -409,18 +606,18 @@ class Sequences(Sub):
                     lasts, fresh = [INF] * numel, True
                     continue
                 if fresh:                   # the first loss after construction / reset may be anything
-                    new = [_first(draw(U) / 32.0, tol) for _ in range(numel)]
+                    new = [_first(draw(U) / 32.0, tol, mode, scale) for _ in range(numel)]
                     fresh = False
                 else:
                     common = draw(st.sampled_from(prof))
                     syms = [common if (numel == 1 or draw(st.integers(0, 2)) > 0) else draw(st.sampled_from(prof))
                             for _ in range(numel)]
-                    new = [_realise(c, sy, draw(U) / 32.0, thr, tol) for c, sy in zip(cur, syms)]
+                    new = [_realise(c, sy, draw(U) / 32.0, thr, tol, mode, scale) for c, sy in zip(cur, syms)]
                 rej = 0
                 if ctrl == "S" and draw(st.integers(0, 19)) == 0:
                     rej = draw(st.sampled_from((1, 3)))
                 ev.append(new + [rej] if ctrl == "S" else new)
-                aut.step(bool(step_failed(lasts, new, thr)), rej > 0 and case.get("reject_attr", False),
+                aut.step(bool(step_failed(lasts, new, thr, mode)), rej > 0 and case.get("reject_attr", False),
                          tol is not None and bool(all_below(new, tol)))
                 cur = lasts = new
             case["ev"] = ev
@@ -429,11 +626,14 @@ class Sequences(Sub):
 
     def oracle(self, case, rec):
         ctrl, steps, patience, thr, form = (case[k] for k in ("ctrl", "steps", "patience", "thr", "form"))
+        mode = case.get("mode", "agree")
         shape = SHAPES[form]
         numel = int(np.prod(shape)) if shape else 1
         tol = case.get("tol")
-        if not (steps >= 1 and patience >= 1 and thr > 0 and (tol is None or tol > 0)):
+        if not (steps >= 1 and patience >= 1 and thr > 0 and (tol is None or tol > 0)) or mode not in MODE_PROFILES:
             rec.discard_case("configuration outside the stated domain")
+        if mode == "rel" and ctrl != "R":
+            rec.discard_case("the relative-only reading is documented for ReduceToBason alone")
         aut = Automaton(steps, patience)
         if ctrl == "R":
             kw = dict(steps=steps, patience=patience, decreasing=thr, tol=tol)
@@ -448,9 +648,11 @@ class Sequences(Sub):
             with rec.sut("StopOnPlateau()"):
                 c = StopOnPlateau(stub, steps=steps, patience=patience, decreasing=thr)
             lasts = [float(case["l0"])]
+        soft = set()
         with rec.sut("initial state"):
-            rec.check(bool(c.continual()) and c.steps == 0 and c.patience_count == 0, ctrl + ":initial",
-                      "fresh controller: continual()/steps/patience_count are not True/0/0")
+            rec.check(bool(c.continual()), ctrl + ":initial", "fresh controller: continual() is not True")
+            if not (c.steps == 0 and c.patience_count == 0):
+                soft.add(ctrl + ":counter_differs:initial")
         hist, nreset, post = [], 0, 0
         dt = {"t32": torch.float32, "t64": torch.float64}.get(form, torch.float32)
         for ev in case["ev"]:
@@ -463,20 +665,34 @@ class Sequences(Sub):
                 aut.reset()
                 lasts, nreset = [INF] * numel, nreset + 1
                 hist.append("|")
-                for k in _state_diff(dict(vars(c)), fresh):
-                    rec.fail("R:reset:attr:%s" % k, "history %s: after reset() attribute %s = %r, a fresh controller has %r"
-                             % ("".join(hist), k, vars(c).get(k), fresh.get(k)))
+                named, other = _state_diff(dict(vars(c)), fresh)
+                for k in named:
+                    rec.fail("R:reset:attr:%s" % k, "history %s: after reset() the state variable %s = %r, a fresh controller "
+                             "has %r" % ("".join(hist), k, vars(c).get(k), fresh.get(k)))
+                soft.update("R:reset:other_attribute_differs:%s" % k for k in other)
                 rec.check(bool(cont), "R:reset:continual", "continual() is %r right after reset()" % (cont,))
                 continue
             vals = [float(v) for v in ev[:numel]]
-            if len(ev) < numel or not all(0.0 < v < INF and f32(v) == v for v in vals):
+            if len(ev) < numel or not all(0.0 <= v < INF and f32(v) == v for v in vals):
                 rec.discard_case("loss outside the generated domain")
             rej = int(ev[numel]) if ctrl == "S" else 0
-            failed = step_failed(lasts, vals, thr)
+            failed = step_failed(lasts, vals, thr, mode)
             below = all_below(vals, tol) if ctrl == "R" else False
             running = aut.continual
             if running and (failed is None or below is None):
                 rec.discard_case("readings of 'decrease' / 'below tol' do not coincide on this step")
+            if running and 0.0 in vals:
+                soft.add("reached:zero_loss")
+            if running and mode != "agree":                  # which of the targeted regions does this asserted step reach?
+                for a, b in zip(lasts, vals):
+                    if a == INF or not (a > 0.0 and b > 0.0):
+                        continue
+                    am = RC.amounts(a, b)
+                    verdict = classify(a, b, thr, mode)
+                    if any(0.9 * thr <= x <= 1.1 * thr for x in am) and verdict is not None:
+                        soft.add("reached:step_within_10%%_of_threshold:%s" % verdict)
+                    if mode == "rel" and verdict is not None and (am[0] < thr) != (verdict == "fail"):
+                        soft.add("reached:absolute_reading_opposite:%s" % verdict)
             if ctrl == "R":
                 loss = vals[0] if form == "float" else torch.tensor(vals, dtype=dt).reshape(shape)
             else:
@@ -489,8 +705,8 @@ class Sequences(Sub):
                 got, gs, gp = bool(c.continual()), c.steps, c.patience_count
             aut.step(bool(failed), rej > 0 and has_rej, bool(below))
             hist.append(("f" if failed else "d") + ("r" if rej and has_rej else "") + ("b" if below else ""))
-            where = lambda: "steps=%d patience=%d thr=%g tol=%r form=%s history %s (step %d)" % (
-                steps, patience, thr, tol, form, " ".join(hist), aut.steps)
+            where = lambda: "steps=%d patience=%d thr=%g tol=%r form=%s mode=%s history %s (step %d: %r -> %r)" % (
+                steps, patience, thr, tol, form, mode, " ".join(hist), aut.steps, lasts, vals)
             if running:
                 if got is not aut.continual:
                     if got:
@@ -499,9 +715,13 @@ class Sequences(Sub):
                     else:
                         rec.fail("%s:stops_early" % ctrl, where() + ": continual() is %r where no documented condition holds "
                                  "(failed run %d/%d)" % (got, aut.patience_count, patience))
-                rec.check(gs == aut.steps, ctrl + ":steps_counter", lambda: where() + ": .steps = %r" % (gs,))
-                rec.check(gp == aut.patience_count, ctrl + ":patience_counter", lambda: where() +
-                          ": .patience_count = %r, current run of failed steps is %d" % (gp, aut.patience_count))
+                # undocumented counters: a label, not a failure (see Enum.compare)
+                if gs != aut.steps:
+                    soft.add(ctrl + ":counter_differs:steps")
+                if gp != aut.patience_count:
+                    soft.add(ctrl + ":counter_differs:patience_count")
+                if not aut.continual and "tol" in aut.stop_causes:
+                    soft.add("reached:stop_on_tol@tol=%g" % tol)
             else:
                 post += 1
                 rec.check(not got, ctrl + ":rearmed", lambda: where() + ": continual() is %r although the controller "
@@ -509,12 +729,12 @@ class Sequences(Sub):
             if rec.fails:
                 return
             lasts = vals
-        rec.label(ctrl + ":" + form, "stopped" if not aut.continual else "still_running",
-                  "resets:%d" % min(nreset, 3), "len>=20" if len(case["ev"]) >= 20 else "len<20")
+        rec.label(ctrl + ":" + form, "stopped" if not aut.continual else "still_running", "mode:" + mode,
+                  "resets:%d" % min(nreset, 3), "len>=20" if len(case["ev"]) >= 20 else "len<20", *sorted(soft))
         if aut.stop_causes:
             rec.label("last_stop:" + "+".join(aut.stop_causes))
         if post or nreset:
-            rec.nt("%s|%d|%d|%s|%s" % (ctrl, steps, patience, form, "".join(hist)))
+            rec.nt("%s|%d|%d|%s|%s%s" % (ctrl, steps, patience, form, "" if mode == "agree" else mode + "|", "".join(hist)))
 
     def simplify(self, case):
         ev = case["ev"]
@@ -692,7 +912,8 @@ class Drivers(Sub):
         with rec.sut("after optimize"):
             cont, ns = sched.continual(), sched.steps
         rec.check(not cont, "optimize_stub:continual_after", where + ": continual() not False after optimize()")
-        rec.check(ns == n, "optimize_stub:steps_counter", "%s: .steps = %r after %d steps" % (where, ns, n))
+        if ns != n:                          # undocumented counter: label only
+            rec.label("S:counter_differs:steps")
         for j in range(min(int(case["extra"]), len(script) - opt.calls)):      # steps after the stop, then optimize again
             loss = opt.step(None)
             with rec.sut("StopOnPlateau.step after the stop"):
@@ -710,7 +931,7 @@ class Drivers(Sub):
         if case["extra"]:
             rec.nt("opt_stub|%d|%d|%s|+%d" % (steps, patience, "".join(hist), case["extra"]))
 
-    def _opt_real(self, case, rec):
+    def _opt_real(self, case, rec, strict=False):
         steps, patience, thr = case["steps"], case["patience"], case["thr"]
         model = _Rosen([float(v) for v in case["p0"]])
         inp = torch.tensor([float(v) for v in case["inp"]], dtype=torch.float32)
@@ -740,7 +961,7 @@ class Drivers(Sub):
         except _Overrun:
             over = True
         except Exception as e:
-            _driver_exc(rec, "StopOnPlateau.optimize(real %s)" % case["opt"], e)
+            _driver_exc(rec, "StopOnPlateau.optimize(real %s)" % case["opt"], e, strict)
         n = len(trace)
         where = "%s steps=%d patience=%d thr=%g p0=%s: losses %s" % (case["opt"], steps, patience, thr, case["p0"],
                                                                       [(round(a, 6), round(b, 6), r) for a, b, r in trace[:14]])
@@ -748,29 +969,39 @@ class Drivers(Sub):
             rec.fail("optimize_real:overrun", where + ": still running after %d optimizer steps" % n)
             return
         rec.check(n <= steps, "optimize_real:budget", "%s: %d optimizer steps > steps" % (where, n))
-        rec.check((not cont) and ns == n, "optimize_real:final_state", "%s: continual()=%r steps=%r after %d steps" % (where, cont, ns, n))
+        # a freshly constructed scheduler is continual (checked in enum / sequences): optimize() must step at least once,
+        # a loop that never runs would satisfy everything below vacuously
+        rec.check(n >= 1, "optimize_real:no_step", where + ": optimize() on a fresh scheduler made no optimizer step")
+        rec.check(not cont, "optimize_real:final_state", "%s: continual()=%r after optimize() returned (%d steps)" % (where, cont, n))
+        if ns != n:
+            rec.label("S:counter_differs:steps")
+        if n == 0:
+            return
         if not all(math.isfinite(a) and math.isfinite(b) for a, b, _ in trace):
-            rec.label("opt_real:nonfinite_loss")
+            rec.label("opt_real:nonfinite_loss(stop step not judged)")
+            rec.check(not strict, "canary:opt_real:undecided", where + ": non-finite loss on a canary input")
             return
         # exact stop step under some reading; `last` is supplied by the optimizer
         ok, detail = _accept_any_reading([([a], [b], r) for a, b, r in trace], thr, None, steps, patience, n)
         rec.check(ok is not False, "optimize_real:stop_step", "%s: stopped after %d steps, no reading of 'decrease' explains it (%s)"
                   % (where, n, detail))
-        rec.label("opt_real:" + case["opt"], "opt_real:decided" if ok else "opt_real:undecided",
+        rec.label("opt_real:" + case["opt"], "opt_real:decided" if ok else "opt_real:undecided(stop step not judged)",
                   "opt_real:rejections" if any(r for _, _, r in trace) else "opt_real:no_rejection")
+        if strict:
+            rec.check(ok is not None, "canary:opt_real:undecided", "%s: the stop step of a canary input cannot be judged (%s)" % (where, detail))
         try:                                # a stopped scheduler stays stopped: optimize() again must not step the optimizer
             sched.optimize(input=inp)
             cont = sched.continual()
         except _Overrun:
             pass
         except Exception as e:
-            _driver_exc(rec, "second StopOnPlateau.optimize(real %s)" % case["opt"], e)
+            _driver_exc(rec, "second StopOnPlateau.optimize(real %s)" % case["opt"], e, strict)
         rec.check(len(trace) == n and not cont, "optimize_real:rearmed", "%s: a second optimize() made %d more optimizer steps"
                   % (where, len(trace) - n))
         rec.nt("opt_real|%d|%d|%s|%s|%d|%d" % (steps, patience, case["opt"], case["strat"] if case["opt"] == "LM" else "-", n,
                                                sum(1 for _, _, r in trace if r)))
 
-    def _loop(self, case, rec, build):
+    def _loop(self, case, rec, build, strict=False):
         """MPC / ICP: the same object is called three times (stepper reused), counting wrapper around stepper.step"""
         k, patience, thr, tol = case["steps"], case["patience"], case["thr"], case["tol"]
         with rec.sut("ReduceToBason()"):
@@ -796,7 +1027,7 @@ class Drivers(Sub):
             except _Overrun:
                 over = True
             except Exception as e:
-                _driver_exc(rec, "%s call %d" % (case["kind"], ci + 1), e)
+                _driver_exc(rec, "%s call %d" % (case["kind"], ci + 1), e, strict)
             n = len(seen)
             where = "%s call %d steps=%d patience=%d thr=%g tol=%g seed=%d: losses %s" % (
                 case["kind"], ci + 1, k, patience, thr, tol, case["seed"], [[round(v, 7) for v in ls] for ls in seen[:12]])
@@ -805,18 +1036,27 @@ class Drivers(Sub):
                 return
             rec.check(n <= k, "%s:budget" % case["kind"], "%s: %d controller steps, budget %d" % (where, n, k))
             rec.check(not cont, "%s:continual_after" % case["kind"], where + ": continual() not False after the loop ended")
-            if n == 0:                  # the driver did not re-arm the controller: not this property's business
-                rec.label("%s:call%d:zero_steps" % (case["kind"], ci + 1))
+            if n == 0:
+                # call 1: the stepper is freshly constructed, hence continual (checked in enum / sequences) - a loop that
+                # never steps it would pass everything else vacuously.  Later calls: whether the DRIVER re-arms a stopped
+                # stepper is not this property's business (counted; asserted on the canary inputs only, where the
+                # unchanged tree does).
+                rec.check(ci > 0 and not strict, "%s:no_step:call%d" % (case["kind"], min(ci + 1, 2)),
+                          where + ": the driver loop made no controller step")
+                rec.label("%s:call%d:zero_steps(stop step not judged)" % (case["kind"], ci + 1))
                 continue
             ok, detail = _accept_any_reading([(None, ls, 0) for ls in seen], thr, tol, budget, patience, n)
             rec.check(ok is not False, "%s:stop_step:call%d" % (case["kind"], min(ci + 1, 2)), "%s: loop ended after %d controller "
                       "steps; a fresh controller (budget %d) stops at %s" % (where, n, budget, detail))
-            rec.label("%s:call%d:%s" % (case["kind"], ci + 1, "decided" if ok else "undecided"))
+            rec.label("%s:call%d:%s" % (case["kind"], ci + 1, "decided" if ok else "undecided(stop step not judged)"))
+            if strict:
+                rec.check(ok is not None, "canary:%s:undecided" % case["kind"], "%s: the stop step of a canary input cannot be "
+                          "judged (%s)" % (where, detail))
             desc.append(str(n))
         rec.label(case["kind"])
         rec.nt("%s|%d|%d|%g|%g|%s" % (case["kind"], k, patience, thr, tol, ",".join(desc)))
 
-    def _mpc(self, case, rec):
+    def _mpc(self, case, rec, strict=False):
         rs = np.random.RandomState(case["seed"] % (2 ** 31))
         T, ns, nc, B = 2 + case["size"] % 3, 2, 1, 1
         Q = torch.tile(torch.eye(ns + nc), (B, T, 1, 1)) * float(rs.uniform(0.5, 2.0))
@@ -831,9 +1071,9 @@ class Drivers(Sub):
             with rec.sut("MPC()"):
                 mpc = pp.module.MPC(sysm, Q, p, T, stepper=stepper)
             return [lambda: mpc(h, x0, u_init=u0), lambda: mpc(h, x1, u_init=u0), lambda: mpc(h, x0, u_init=0 * u0)]
-        self._loop(case, rec, build)
+        self._loop(case, rec, build, strict)
 
-    def _icp(self, case, rec):
+    def _icp(self, case, rec, strict=False):
         rs = np.random.RandomState(case["seed"] % (2 ** 31))
         n, batch = 4 + case["size"], ((2,) if case["batch"] else ())
         src = torch.tensor(rs.randn(*batch, n, 3), dtype=torch.float32)
@@ -847,7 +1087,7 @@ class Drivers(Sub):
             with rec.sut("ICP()"):
                 icp = pp.module.ICP(stepper=stepper)
             return [lambda: icp(src, tgt), lambda: icp(tgt, src), lambda: icp(src2, tgt)]
-        self._loop(case, rec, build)
+        self._loop(case, rec, build, strict)
 
     def simplify(self, case):
         if case["kind"] == "opt_stub":
@@ -871,7 +1111,33 @@ class Drivers(Sub):
                 yield dict(case, batch=0)
 
 
-SUBS = [Enum(), Sequences(), Drivers()]
+class Canary(Drivers):
+    """A handful of FIXED, well-conditioned driver inputs on which the unchanged tree runs every loop cleanly.  The random
+    driver cases cannot tell 'the loop is governed correctly' from 'the driver never gets as far as the loop' (an
+    exception outside the controller code discards the case, a loop without a step has no stop step to judge); here
+    nothing may be skipped: every call must return without an exception, make >= 1 controller step, and its stop step
+    must be decidable and the automaton's."""
+    name = "driver_canary"
+    kind = "enum"
+    exhaustive = False
+    budget_s = {"quick": 100.0, "thorough": 100.0}
+
+    def cases(self, tier):
+        for steps, patience, thr, tol in ((1, 1, 1e-3, 1e-5), (3, 1, 1e-3, 1e-5), (6, 2, 1e-6, 1e-5), (9, 4, 0.05, 1e-2)):
+            for kind, batch in (("mpc", 0), ("icp", 0), ("icp", 2)):
+                yield {"kind": kind, "steps": steps, "patience": patience, "thr": thr, "tol": tol, "seed": 12345 + steps,
+                       "size": 8, "batch": batch}
+        for opt, strat in (("GN", "const"), ("LM", "const"), ("LM", "adapt"), ("LM", "tr")):
+            for steps, patience in ((1, 1), (4, 2), (12, 3)):
+                yield {"kind": "opt_real", "opt": opt, "strat": strat, "damping": 1e-2 if strat != "tr" else 1.0, "reject": 16,
+                       "steps": steps, "patience": patience, "thr": 1e-3, "p0": [-1.5, 2.0], "inp": [1.0, 0.5, 0.25]}
+
+    def oracle(self, case, rec):
+        getattr(self, "_" + case["kind"])(case, rec, True)
+        rec.label("canary:" + case["kind"])
+
+
+SUBS = [Enum(), Histories(), Sequences(), Drivers(), Canary()]
 
 
 # =====================================================================================
@@ -900,30 +1166,57 @@ def selftest():
                 stop = t
             assert a.continual == (stop == 0)
         assert stop == RC.stop_step_by_definition(h, steps, patience) == a.stop_step, (h, steps, patience)
-    # (3) the enumeration ladder is unambiguous on every reachable value, and the three readings really coincide
-    vals = {L0_E}
-    for _ in range(9):
-        vals |= {_ladder(v, ch) for v in vals for ch in "dsi"}
-    for v in vals:
-        assert relation(v, _ladder(v, "d"), THR_E) == "dec" and relation(v, BELOW_E, THR_E) == "dec"
-        for ch in "sei":
-            w = _ladder(v, ch)
-            assert relation(v, w, THR_E) == "fail" and (ch == "e" or w != v)
-            assert all(failed_under(v, w, THR_E, rd) is True for rd in RC.READINGS)
-        assert all(failed_under(v, _ladder(v, "d"), THR_E, rd) is False for rd in RC.READINGS)
-        assert all_below([v], TOL_E) is False and f32(v) == v
-    assert all_below([BELOW_E], TOL_E) is True
-    # (4) the cases partition the box: every history of length 1..maxlen is counted by exactly one case
+    # (3) every ladder is unambiguous on every value reachable within 12 steps, the verdict used by the enumeration is the
+    #     one exact rational arithmetic gives for EVERY reading it claims to cover, and no step is closer than 0.5 % to
+    #     the threshold (the controllers' float32 rounding is 2e-7); on the rel_* ladders the absolute reading is opposite
+    for name, L in LADDERS.items():
+        thr, tol, mode = L["thr"], L["tol"], L["mode"]
+        readings = RC.READINGS[1:] if mode == "rel" else RC.READINGS
+        vals = {L["l0"]}
+        for _ in range(12):
+            vals |= {_ladder(v, ch, L) for v in vals for ch in "dsi"}
+        opposite = set()
+        for v in vals:
+            assert all_below([v], tol) is False and f32(v) == v and v > 0
+            for ch, want in (("d", "dec"), ("s", "fail"), ("e", "fail"), ("i", "fail")):
+                w = _ladder(v, ch, L)
+                assert classify(v, w, thr, mode) == want and (ch == "e" or w != v), (name, v, ch)
+                verdicts, dist = RC.relation_exact(v, w, thr, readings)
+                assert verdicts == {want} and dist > 5e-3, (name, v, ch, verdicts, dist)
+                assert all(failed_under(v, w, thr, rd) is (want == "fail") for rd in readings)
+                if RC.relation_exact(v, w, thr, ("abs",))[0] != {want}:
+                    opposite.add(ch)
+            assert classify(v, L["below"], thr, mode) == "dec" and classify(L["below"], v, thr, mode) == "fail"
+        assert all_below([L["below"]], tol) is True and classify(L["below"], L["below"], thr, mode) == "fail"
+        assert (mode == "rel") == bool(opposite), (name, opposite)
+        if name == "fine":      # ... and the near-threshold steps really are within 1.5 % of the threshold
+            assert all(RC.relation_exact(v, _ladder(v, ch, L), thr)[1] < 0.015 for v in vals for ch in "ds")
+    assert LADDERS["rel_hi"]["s"] and classify(1024.0, _ladder(1024.0, "s", LADDERS["rel_hi"]), 1e-3, "agree") is None
+    # zero losses: IEEE semantics of x/0
+    assert relation(1.0, 0.0, 1e-3) == "dec" and relation(0.0, 1.0, 1e-3) == "fail" and relation(0.0, 0.0, 1e-3) is None
+    assert relation(1e-4, 0.0, 1e-3) is None and RC.relation_rel(1.0, 0.0, 1e-3) is None
+    # (4) the cases partition each box: every history of length 1..maxlen is counted by exactly one case
     e = Enum()
-    tot = {}
-    for c in e.cases("quick"):
-        key = (c["ctrl"], c["steps"], c["patience"], c["maxlen"])
-        m, pre = len(SYM[c["ctrl"]]), c["prefix"]
-        sub = sum(m ** j for j in range(1, c["maxlen"] - len(pre) + 1))
-        owned = sum(1 for d in range(len(pre)) if d >= len(pre) - 1 or set(pre[d + 1:]) <= {SYM[c["ctrl"]][0]})
-        tot[key] = tot.get(key, 0) + sub + owned
-    for (ctrl, s_, p, L), v in tot.items():
-        assert v == sum(len(SYM[ctrl]) ** j for j in range(1, L + 1)), (ctrl, s_, p, v)
+    for tier in ("quick",):
+        tot = {}
+        for c in e.cases(tier):
+            if c.get("alpha"):
+                continue
+            key = (c["ladder"], c["ctrl"], c["steps"], c["patience"], c["maxlen"])
+            m, pre = len(SYM[c["ctrl"]]), c["prefix"]
+            sub = sum(m ** j for j in range(1, c["maxlen"] - len(pre) + 1))
+            owned = sum(1 for d in range(len(pre)) if d >= len(pre) - 1 or set(pre[d + 1:]) <= {SYM[c["ctrl"]][0]})
+            tot[key] = tot.get(key, 0) + sub + owned
+        assert set(tot) == set(e.box(tier))
+        for (lad, ctrl, s_, p, L), v in tot.items():
+            assert v == sum(len(SYM[ctrl]) ** j for j in range(1, L + 1)), (ctrl, s_, p, v)
+    # the thorough boxes reach the stated configuration limits (steps 1..6 x patience 1..4), pairs reach length 12
+    tb = e.box("thorough")
+    assert {(s_, p) for l, c, s_, p, _ in tb if l == "coarse" and c == "S"} == {(a, b) for a in range(1, 7) for b in range(1, 5)}
+    assert len(e.pair_box("thorough")) == 48 and (6, 4) in Enum.PAIRS_QUICK["S"]
     rec = eval_case(e, {"ctrl": "R", "steps": 2, "patience": 1, "prefix": "", "maxlen": 4})
     if not rec.fails:           # (a broken controller aborts the walk early: that is a violation, not a harness error)
         assert rec.notes["histories_per_case"] == 5 + 25 + 125 + 625, rec.notes
+    rec = eval_case(e, {"ctrl": "S", "steps": 6, "patience": 4, "prefix": "", "maxlen": 12, "alpha": "dE", "ladder": "coarse"})
+    if not rec.fails:
+        assert rec.notes["histories_per_case"] == 2 ** 13 - 2, rec.notes
